@@ -40,8 +40,17 @@ def stored_form(ctx, prog, rule):
             found[ty] = tree_str(src)
     okf = set(found) == {"f32", "f64"} and "Single" in found["f32"] and "Double" in found["f64"]
     ctx.ob(rule, "stored-form/floats-writer", okf, "RecordDataType::write: add_bytes(to_le_bytes) per float type: %s (Single -> f32 4 bytes, Double -> f64 8 bytes)" % found)
-    ints = [callee_of(t) for bi, t in g.calls(lambda c, t: c == "record::serialize_integer")]
-    ctx.ob(rule, "stored-form/integers-writer", len(ints) == 2, "ScaledInteger and Integer both go through serialize_integer (%d calls)" % len(ints), nontrivial=False)
+    # both integer variants go through serialize_integer(value payload, min, max of the same variant) - in two arms or in
+    # one or-pattern arm
+    import re as _re
+    covered, consistent, ncalls = set(), True, 0
+    for bi, t in g.calls(lambda c, t: c == "record::serialize_integer"):
+        ncalls += 1
+        vs = [set(_re.findall(r"\b(ScaledInteger|Integer)\.", tree_str(strip_deep(Rg.operand(a))))) for a in t["args"][:3]]
+        consistent = consistent and bool(vs[0]) and vs[0] == vs[1] == vs[2]
+        covered |= vs[0]
+    ctx.ob(rule, "stored-form/integers-writer", ncalls >= 1 and consistent and covered == {"ScaledInteger", "Integer"},
+           "ScaledInteger and Integer both go through serialize_integer with the value, minimum and maximum of the same variant (%d calls, variants %s)" % (ncalls, sorted(covered)), nontrivial=False)
     # reader side floats
     for name, bits, fty, ity, variant in (("unpack_doubles", 64, "f64", "u64", "Double"), ("unpack_singles", 32, "f32", "u32", "Single")):
         h = prog.fn("bitpack::BitPack::" + name)
@@ -146,6 +155,8 @@ def append_shape(ctx, prog, rule):
     oko = False
     if len(offs) == 1:
         t = strip(R.rvalue(offs[0][3]))
+        if t[0] == "binop" and t[1] == "Rem" and is_self_field(t[2], "offset") and const_val(t[3]) == 8:
+            oko = True          # offset % 8 == offset - (offset / 8) * 8
         if t[0] == "binop" and t[1] == "Sub" and is_self_field(t[2], "offset"):
             m = strip_casts(t[3])
             if m[0] == "binop" and m[1] == "Mul" and 8 in (const_val(m[2]), const_val(m[3])):
